@@ -25,14 +25,21 @@ ShippedChoice(l, k, lvl, S) ==
          [] l = "Azerty" /\ k = "Oem8" -> 178             \* superscript two
          [] OTHER -> Pick(S)
 
-MBase(l, k) == ShippedChoice(l, k, 1, RefBase(l, k))
-MShift(l, k) == ShippedChoice(l, k, 2, RefShift(l, k))
-MHasAltGr(l, k) == RefAltGr(l, k) # {}
-MAltGr(l, k) == ShippedChoice(l, k, 3, RefAltGr(l, k))
-MCasePair(l, k) == Upper(MBase(l, k)) # MBase(l, k) /\ MShift(l, k) = Upper(MBase(l, k))
-(* layouts whose shipped code tests Shift before AltGr (relevant only to Shift+AltGr, which no
-   property constrains) *)
+(* per (layout, key) data tabulated once: <<base, shift, altgr or -1, case pair?>> *)
+MTab == [l \in Layouts |-> [k \in MainBlock(l) |->
+           LET b == ShippedChoice(l, k, 1, RefBase(l, k))
+               s == ShippedChoice(l, k, 2, RefShift(l, k))
+               a == IF RefAltGr(l, k) = {} THEN -1 ELSE ShippedChoice(l, k, 3, RefAltGr(l, k))
+           IN  <<b, s, a, Upper(b) # b /\ s = Upper(b)>>]]
+MBase(l, k) == MTab[l][k][1]
+MShift(l, k) == MTab[l][k][2]
+MHasAltGr(l, k) == MTab[l][k][3] >= 0
+MAltGr(l, k) == MTab[l][k][3]
+MCasePair(l, k) == MTab[l][k][4]
+(* layouts whose shipped code tests Shift before AltGr on symbol keys (relevant only to Shift+AltGr,
+   which no property constrains); letters always test AltGr first *)
 ShiftFirst == {"No105Key", "FiSe105Key"}
+MainOf == [l \in Layouts |-> MainBlock(l)]
 
 MDecimal(l) == IF l \in {"No105Key", "FiSe105Key"} THEN 44 ELSE 46
 
@@ -44,10 +51,10 @@ Model(l, k, m, h) ==
   ELSE IF k \in NumpadOps THEN NumpadOpChar[k]
   ELSE IF k = "NumpadEnter" THEN EditingChar["Return"]
   ELSE IF k = "NumpadPeriod" THEN (IF Nl(m) THEN MDecimal(l) ELSE 127)
-  ELSE IF k \notin MainBlock(l) THEN Raw(k)
-  ELSE LET b == MBase(l, k)  s == MShift(l, k) IN
+  ELSE IF k \notin MainOf[l] THEN Raw(k)
+  ELSE LET t == MTab[l][k]  b == t[1]  s == t[2] IN
        IF h = "Map" /\ Ct(m) /\ b \in 97..122 THEN b - 96
-       ELSE IF MHasAltGr(l, k) /\ Ag(m) /\ ~(Sh(m) /\ l \in ShiftFirst) THEN MAltGr(l, k)
-       ELSE IF MCasePair(l, k) THEN (IF IsCaps(m) THEN s ELSE b)
+       ELSE IF t[3] >= 0 /\ Ag(m) /\ ~(Sh(m) /\ ~t[4] /\ l \in ShiftFirst) THEN t[3]
+       ELSE IF t[4] THEN (IF IsCaps(m) THEN s ELSE b)
        ELSE IF Sh(m) THEN s ELSE b
 =============================================================================
